@@ -11,7 +11,8 @@ CHECK = {
                       "Hook: validation.VerifNewHeaderValidator (constructor over caller-supplied accumulators).",
         "technique": "property-based testing (rapid), differential against a reference Merkle verifier; plan-first with structural mutations",
         "runs": [
-            {"name": "c03", "run": "^TestC03_", "checks": {"quick": 8000, "thorough": 30000}, "shards": {"quick": 1, "thorough": 16}},
+            {"name": "c03", "run": "^TestC03_HeaderProofs$", "checks": {"quick": 8000, "thorough": 30000}, "shards": {"quick": 1, "thorough": 16}},
+            {"name": "c03prover", "run": "^TestC03_RepoProver$", "checks": {"quick": 60, "thorough": 400}, "shards": {"quick": 1, "thorough": 16}},
         ],
         "rule": "rapid draws a world: an era for the header's block number (first/last/+-1 of each era = the fork boundaries, or random), "
                 "pre-merge an epoch accumulator of 1..8192 records (SSZ list root with length mix-in) placed in a 1897-entry epoch list, "
@@ -21,7 +22,9 @@ CHECK = {
                 "beyond the list and below the Capella start, header field or number changes (other era, +-1, +-8192), truncation/extension, "
                 "sibling swap, neighbour's branch, accumulator truncated/shifted/flipped, proof built with another era's layout. "
                 "Every case is judged by the reference (accept <=> reference verifies); a panic is a violation. Non-trivial = every case "
-                "(each reaches the reference verdict); classes record honest/era and the reference's rejection reason per era.",
+                "(each reaches the reference verdict); classes record honest/era and the reference's rejection reason per era. A second check uses the "
+                "repository's own prover as the honest party: chains of 1..8192 real headers through history.Accumulator, proofs by "
+                "history.BuildProof for the first, last and random records, each verified by the code and by the reference.",
         "assumptions": [
             "pre-merge accumulators handed to the validator have the production length of 1897 epochs (production never uses another length)",
             "summaries served by the oracle extend the ones the validator already holds (historical_summaries is append-only)",
@@ -32,5 +35,5 @@ CHECK = {
                                        "verdict:position-out-of-range:deneb", "verdict:leaf-branch-mismatch:premerge",
                                        "verdict:beacon-branch-mismatch:bellatrix", "verdict:beacon-branch-mismatch:deneb",
                                        "full-epoch-chain", "full-block-roots", "mutated-but-valid", "fork-boundary-number",
-                                       "oracle-consulted", "cross-era"]},
+                                       "oracle-consulted", "cross-era", "prover:honest", "prover:full-epoch"]},
     }
